@@ -70,7 +70,8 @@ func H_C13_read(enc, provider int) {
 // H_C13_sched: exclusive use under concurrency, on the value level (bounded interleaving exploration, DESIGN 2.8b).
 // Threads use the provider through the ledger, every provider call being a point where the scheduler may switch.
 // provider as in vProvider; kind 0 gzip writer, 1 zlib writer, 2 gzip reader: each thread acquires, works, releases;
-// kind 3: two encoded responses through a container (gzip), kind 4: the same with deflate; pre: preemption bound
+// kind 3: two encoded responses through a container (gzip, Dispatch), kind 4: the same with deflate, kinds 5/6: the same
+// through ServeHTTP (which closes the response writer a second time after dispatch has); pre: preemption bound
 func H_C13_sched(provider, nthreads, kind, pre int) {
 	led := vNewLedger(vProvider(provider))
 	led.yield = true
@@ -85,18 +86,25 @@ func H_C13_sched(provider, nthreads, kind, pre int) {
 		ws.Path("/t")
 		ws.Route(ws.GET("/{v}").To(func(req *Request, resp *Response) {
 			resp.Write([]byte("<" + req.PathParameter("v")))
+			verifYield() // the response is half written while the other one makes progress
 			resp.Write([]byte(">"))
 		}))
 		c.Add(ws)
 		ae := "gzip"
-		if kind == 4 {
+		if kind == 4 || kind == 6 {
 			ae = "deflate"
 		}
 		for t := 0; t < nthreads; t++ {
 			rec := vNewRec()
 			recs = append(recs, rec)
 			req := vHdrReq("GET", "/t/p"+vItoa(t), map[string]string{"Accept-Encoding": ae})
-			verifSpawn(func() { c.Dispatch(rec, req) })
+			verifSpawn(func() {
+				if kind >= 5 {
+					c.ServeHTTP(rec, req)
+				} else {
+					c.Dispatch(rec, req)
+				}
+			})
 		}
 	} else {
 		for t := 0; t < nthreads; t++ {
